@@ -21,6 +21,11 @@ Inductive method :=
 | MValidateTokenExchangeRequest | MCreateTokenExchangeRequest
 | MGetPrivateClaimsFromTokenExchangeRequest | MSetUserinfoFromTokenExchangeRequest
 | MStoreDeviceAuthorization | MGetDeviceAuthorizatonState
+(* optional interfaces the framework type-asserts: CanTerminateSessionFromRequest,
+   CanGetPrivateClaimsFromRequest, TokenExchangeTokensVerifierStorage, JWTProfileTokenStorage
+   (CanSetUserinfoFromRequest, ClientCredentials-, TokenExchange-, DeviceAuthorizationStorage are above) *)
+| MTerminateSessionFromRequest | MGetPrivateClaimsFromRequest
+| MVerifyExchangeSubjectToken | MVerifyExchangeActorToken | MJWTProfileTokenType
 | MUnknown.   (* a journal entry the model does not know: always a mismatch *)
 
 (* the VALUE of an injected failure, as far as Go code can tell values apart with
